@@ -42,6 +42,7 @@ type Cfg struct {
 	SchedSeed        uint64  `json:"sched_seed"`
 	PCT         int     `json:"pct"`
 	PCTSteps    int     `json:"pct_steps"`
+	ChildFirstP float64 `json:"child_first_p,omitempty"`
 }
 
 type Op struct {
@@ -93,6 +94,9 @@ func (H) Gen(p string, seed uint64, tier string) *hx.Case {
 	}
 	if r.Chance(0.3) {
 		cfg.PCT, cfg.PCTSteps = r.Range(1, 4), []int{50, 300, 2000, 10000}[r.Intn(4)]
+	}
+	if r.Chance(0.25) {
+		cfg.ChildFirstP = []float64{0.2, 0.6, 1}[r.Intn(3)]
 	}
 	if tier == "thorough" {
 		cfg.CrashPoints = -1
@@ -622,7 +626,7 @@ func (H) Run(t *testing.T, c *hx.Case) *hx.Outcome {
 	os.MkdirAll(dir, 0770)
 	simos.Reset(dir)
 	r := &run{cfg: cfg, out: out, dir: dir}
-	scfg := simrt.Config{Seed: cfg.SchedSeed, YieldP: cfg.YieldP, TimerP: cfg.TimerP, MaxConsec: cfg.MaxConsec, PCT: cfg.PCT, PCTSteps: cfg.PCTSteps, StepBudget: 3_000_000}
+	scfg := simrt.Config{Seed: cfg.SchedSeed, YieldP: cfg.YieldP, TimerP: cfg.TimerP, MaxConsec: cfg.MaxConsec, PCT: cfg.PCT, PCTSteps: cfg.PCTSteps, ChildFirstP: cfg.ChildFirstP, StepBudget: 3_000_000}
 
 	if os.Getenv("VSIM_DEBUG") != "" {
 		simrt.Debug = func(w, id string) { fmt.Fprintln(os.Stderr, "DBG", w, id, runtime.VerifCtr()) }
